@@ -10,6 +10,9 @@ exist independently of any text.  For every writer route of xtuml/persist.py
     pparts    persist_schema / persist_instances / persist_unique_identifiers to three files, load_metamodel([...])
     dispatch  xtuml.serialize(metamodel) and the per-resource dispatch serialize(class|association|instance)
     inferred  the INSERT statements only (no CREATE TABLE): attribute types are guessed from the values
+    regen     (every third random model, file routes) TWO GENERATIONS AT ONE PATH: after the files were written and loaded,
+              values of plain attributes are changed through the API so that the text keeps its size, the model is
+              persisted to the SAME paths at once and loaded by new loaders; then once more with a change of size
 
   D  the reloaded metamodel has the same canonical dump as the original (classes, attribute types upper-cased,
      associations with number / keys / multiplicity / conditionality / phrases, identifiers, rows per class in order,
@@ -100,12 +103,15 @@ def _sweep_specs():
         yield {'classes': classes, 'assocs': assocs, 'rows': rows, 'links': links, 'int_rel_ids': bool(i % 2)}
 
 
-def _mk_case(spec, rng, tag):
+def _mk_case(spec, rng, tag, regen=False):
     perm = [0, 1, 2]
     rng.shuffle(perm)
     perm2 = [0, 1, 2]
     rng.shuffle(perm2)
-    return {'tag': tag, 'spec': spec, 'perm': perm, 'perm2': perm2}
+    case = {'tag': tag, 'spec': spec, 'perm': perm, 'perm2': perm2}
+    if regen:
+        case['regen'] = True          # family "two generations at one path" on the file routes
+    return case
 
 
 def generate(ctx):
@@ -118,7 +124,7 @@ def generate(ctx):
     for i in range(n):
         r = ctx.rng.fork('model', i)
         big = (i % 5 == 4) or (not ctx.quick() and i % 2 == 0)
-        yield _mk_case(gen_schema.gen_spec(r, big=big), r, 'random')
+        yield _mk_case(gen_schema.gen_spec(r, big=big), r, 'random', regen=(i % 3 == 1))
 
 
 # --------------------------------------------------------------------------- implementation side
@@ -213,6 +219,93 @@ def _case_key(case):
 
 def _no_boolean(mc):
     return all(ty.upper() != 'BOOLEAN' for _, ty in mc.attributes)
+
+
+def _same_length_value(v, ty):
+    """another value of the type whose text is as long as that of `v` (None: no such edit for this value)"""
+    ty = ty.upper()
+    if v is None or isinstance(v, bool):
+        return None
+    if ty == 'INTEGER' and isinstance(v, int):
+        w = abs(v)
+        w2 = w + 1 if w % 10 != 9 else w - 1
+        if w2 == 0 and v < 0:
+            return None
+        return -w2 if v < 0 else w2
+    if ty == 'UNIQUE_ID' and isinstance(v, int) and 0 < v < 2 ** 128:
+        return (v ^ 1) or None                   # a uuid text always has 36 characters; 0 is the null id
+    if ty == 'STRING' and isinstance(v, str):
+        for i, ch in enumerate(v):
+            if 'a' <= ch <= 'y' or 'A' <= ch <= 'Y' or '0' <= ch <= '8':
+                return v[:i] + chr(ord(ch) + 1) + v[i + 1:]
+            if ch in 'zZ9':
+                return v[:i] + chr(ord(ch) - 1) + v[i + 1:]
+    return None
+
+
+def _two_generations(x, spec, built, paths, perm2, fail, stats):
+    """TWO GENERATIONS AT ONE PATH: the files of the first generation have been written and loaded; now values of
+    non-identifying, non-referential attributes are changed through the API so that the text keeps its size, the model is
+    persisted again to the SAME paths at once and loaded by new loaders: the reload must equal the model just written.
+    Then once more with a change that alters the size (contrast)."""
+    p_db, p_s, p_i, p_u = paths
+    m = built.m
+    sizes = [os.path.getsize(p) for p in (p_db, p_i)]
+    edits = 0
+    for r, inst in zip(spec['rows'], built.insts):
+        c = spec['classes'][r['ci']]
+        for (nm, ty), role in zip(c['attrs'], c['roles']):
+            if role != 'plain':
+                continue
+            v2 = _same_length_value(getattr(inst, nm), ty)
+            if v2 is not None:
+                setattr(inst, nm, v2)
+                edits += 1
+    if not edits:
+        stats['regen_no_edit'] = 1
+        return
+    files = [p_s, p_i, p_u]
+    for gen in ('same-size', 'other-size'):
+        if gen == 'other-size':
+            grown = False
+            for r, inst in zip(spec['rows'], built.insts):
+                c = spec['classes'][r['ci']]
+                for (nm, ty), role in zip(c['attrs'], c['roles']):
+                    v = getattr(inst, nm)
+                    if role == 'plain' and ty.upper() == 'STRING' and isinstance(v, str) and not grown:
+                        setattr(inst, nm, v + 'xy')
+                        grown = True
+                    elif role == 'plain' and ty.upper() == 'INTEGER' and isinstance(v, int) and not isinstance(v, bool) and not grown:
+                        setattr(inst, nm, v * 100 + 7 if v >= 0 else v * 100 - 7)
+                        grown = True
+            if not grown:
+                return
+        want = gen_schema.dump(x, m)
+        x.persist_database(m, p_db)
+        x.persist_instances(m, p_i)
+        if gen == 'same-size':
+            same = [os.path.getsize(p) for p in (p_db, p_i)] == sizes
+            stats['regen_same_size' if same else 'regen_size_changed'] = 1
+        else:
+            stats['regen_other_size'] = 1
+        for name, load in (('pdb', lambda: _file_load(x, p_db)), ('pparts', lambda: x.load_metamodel([files[i] for i in perm2]))):
+            try:
+                got = gen_schema.dump(x, load())
+            except Exception as e:
+                fail('%s-regen:reload-raises:%s' % (name, type(e).__name__), 'route %s, second generation at the same path (%s): '
+                     'loading raised %s: %s' % (name, gen, type(e).__name__, str(e)[:300]))
+                continue
+            d = gen_schema.diff(want, got)
+            if d:
+                fail('%s-regen:reload-differs' % name, 'route %s: a model was written to a path and loaded, %d values were changed '
+                     '(%s text), the model was written to the same path again and loaded by a new loader: the reload differs '
+                     'from the model just written at %s' % (name, edits, gen, d))
+
+
+def _file_load(x, path):
+    l = x.ModelLoader()
+    l.filename_input(path)
+    return l.build_metamodel()
 
 
 def run_impl(case):
@@ -341,6 +434,12 @@ def run_impl(case):
     obs = [[Sym('texts')] + texts, [Sym('loads')] + [_load_obs(t) for t in texts] + [_load_obs(concat)],
            [Sym('links'), _link_pairs(m), links_after], [Sym('round2'), _second_text(t_db, x.serialize_database),
                                                          _second_text(t_inst, x.serialize_instances)]]
+    if case.get('regen'):
+        # last: this changes the in-memory model
+        try:
+            _two_generations(x, spec, built, (p_db, p_s, p_i, p_u), case['perm2'], fail, stats)
+        except Exception as e:
+            fail('regen:raises:%s' % type(e).__name__, 'two generations at one path: %s: %s' % (type(e).__name__, str(e)[:300]))
     hazard = any(isinstance(v, str) and any(h in v for h in ("'", '--', '\n', '\x00')) or
                  (isinstance(v, int) and not isinstance(v, bool) and abs(v) >= 2 ** 63)
                  for r in spec['rows'] for v in r['vals'])
